@@ -78,34 +78,33 @@ type CompileOutput struct {
 type unit struct {
 	pkg   string
 	fdp   *descriptorpb.FileDescriptorProto
+	deps  []svcDep          // synthesised message-only files that fdp imports, each a package of its own
 	gen   map[string]string // gorums output: response name -> content
 	err   string            // generation problem (protoc-gen-go)
 	errs  []string          // compiler lines
 	built bool
 }
 
-// writeUnit generates the message code with protoc-gen-go and writes the package.
+// svcDep is a synthesised message-only file imported by a service file; dir is its package directory
+// relative to the scratch module (the path of its go_package below example.com/gen).
+type svcDep struct {
+	fdp *descriptorpb.FileDescriptorProto
+	dir string
+}
+
+// writeUnit generates the message code with protoc-gen-go and writes the package (and, first, the packages
+// of the synthesised files it imports: these have no service and need protoc-gen-go output only).
 func writeUnit(env *Env, tree *Tree, modDir string, u *unit) {
 	genGo, err := env.GenGo()
 	if err != nil {
 		u.err = err.Error()
 		return
 	}
-	req, err := tree.Request(u.fdp, "", "")
-	if err != nil {
-		u.err = "request: " + err.Error()
-		return
-	}
-	r := runPlugin(genGo, req, 60*time.Second)
-	if r.Outcome() != OutcomeOK {
-		u.err = "protoc-gen-go " + r.Outcome() + ": " + r.Diag()
-		return
-	}
-	_, content := responseFiles(r.Resp)
-	write := func(name, src string) error {
+	write := func(dir, name, src string) error {
+		// the plugins name their files after the Go import path: example.com/gen/<dir>/<file>
 		rel := strings.TrimPrefix(name, scratchModule+"/")
 		if rel == name || strings.Contains(rel, "..") {
-			rel = filepath.Join(u.pkg, filepath.Base(name))
+			rel = filepath.Join(dir, filepath.Base(name))
 		}
 		p := filepath.Join(modDir, rel)
 		if err := os.MkdirAll(filepath.Dir(p), 0o755); err != nil {
@@ -113,14 +112,42 @@ func writeUnit(env *Env, tree *Tree, modDir string, u *unit) {
 		}
 		return os.WriteFile(p, []byte(src), 0o644)
 	}
-	for n, c := range content {
-		if err := write(n, c); err != nil {
-			u.err = err.Error()
+	// genMessages runs protoc-gen-go with fdp as the only file to generate (ProtoFile = its import closure,
+	// dependencies first).
+	genMessages := func(fdp *descriptorpb.FileDescriptorProto, dir string) bool {
+		req, err := tree.Request(fdp, "", "")
+		if err != nil {
+			u.err = "request: " + err.Error()
+			return false
+		}
+		r := runPlugin(genGo, req, 60*time.Second)
+		if r.Outcome() != OutcomeOK {
+			u.err = "protoc-gen-go (" + fdp.GetName() + ") " + r.Outcome() + ": " + r.Diag()
+			return false
+		}
+		_, content := responseFiles(r.Resp)
+		if len(content) == 0 {
+			u.err = "protoc-gen-go (" + fdp.GetName() + "): no file generated"
+			return false
+		}
+		for n, c := range content {
+			if err := write(dir, n, c); err != nil {
+				u.err = err.Error()
+				return false
+			}
+		}
+		return true
+	}
+	for _, d := range u.deps {
+		if !genMessages(d.fdp, d.dir) {
 			return
 		}
 	}
+	if !genMessages(u.fdp, u.pkg) {
+		return
+	}
 	for n, c := range u.gen {
-		if err := write(n, c); err != nil {
+		if err := write(u.pkg, n, c); err != nil {
 			u.err = err.Error()
 			return
 		}
@@ -151,12 +178,25 @@ func initModule(env *Env, dir string) error {
 
 var reErrLine = regexp.MustCompile(`^(?:\./)?([A-Za-z0-9_]+)/[^:\s]+\.go:\d+`)
 
+// depTop is the top-level directory of a dependency package directory ("s3dep/fmt" -> "s3dep").
+func depTop(dir string) string {
+	if i := strings.IndexByte(dir, '/'); i >= 0 {
+		return dir[:i]
+	}
+	return dir
+}
+
 // buildUnits runs `go build ./...` once and attributes the compiler output to the packages.
 func buildUnits(env *Env, modDir string, units []*unit) (unattributed string, err error) {
 	byPkg := map[string]*unit{}
 	any := false
 	for _, u := range units {
 		byPkg[u.pkg] = u
+		// compiler output about a package that exists only for this unit counts against the unit
+		for _, d := range u.deps {
+			byPkg[d.dir] = u
+			byPkg[depTop(d.dir)] = u
+		}
 		if u.err == "" {
 			any = true
 		}
@@ -280,12 +320,16 @@ func selectRows(sel string, rows []*Row) (ids []int, err error) {
 var (
 	safeNames   = []string{"Foo", "Bar", "Baz", "get_value", "Read", "Write", "Put", "Send", "Ping", "Echo", "List", "Commit", "Prepare", "Accept", "Lookup"}
 	hazardNames = []string{"Nodes", "Size", "Close", "Get", "And", "Except", "ID", "String", "Equal", "NodeIDs"}
+	// importedPkgNames are Go package names for a synthesised file whose message a service imports: each (but
+	// the control "blobs") is also the name under which the generated gorums code imports a package of its own.
+	importedPkgNames = []string{"encoding", "fmt", "gorums", "grpc", "codes", "status", "ordering", "context", "sync", "proto", "protoreflect", "blobs"}
 )
 
-// synthService draws one random service. pool holds the candidate rows.
-func synthService(tree *Tree, k int, rng *rand.Rand, pool []int) (*ServiceResult, *descriptorpb.FileDescriptorProto) {
+// synthService draws one random service. pool holds the candidate rows. deps are the synthesised files the
+// service file imports (already registered with the tree).
+func synthService(tree *Tree, k int, rng *rand.Rand, pool []int) (sr *ServiceResult, fdp *descriptorpb.FileDescriptorProto, deps []svcDep) {
 	pkg := fmt.Sprintf("s%d", k)
-	sr := &ServiceResult{ID: k, Package: pkg, Hazards: []string{}, Duplicates: []string{}}
+	sr = &ServiceResult{ID: k, Package: pkg, Hazards: []string{}, Duplicates: []string{}}
 	n := 2 + rng.Intn(7) // 2..8 methods
 	names := append([]string{}, safeNames...)
 	rng.Shuffle(len(names), func(i, j int) { names[i], names[j] = names[j], names[i] })
@@ -333,12 +377,46 @@ func synthService(tree *Tree, k int, rng *rand.Rand, pool []int) (*ServiceResult
 			sr.Hazards = append(sr.Hazards, h)
 		}
 	}
+	var imports []string
+	header := ""
+	if rng.Intn(3) == 0 {
+		// one message imported from another synthesised file whose Go package name is that of a package the
+		// generated code imports itself
+		name := importedPkgNames[rng.Intn(len(importedPkgNames))]
+		i := rng.Intn(n)
+		asInput := rng.Intn(2) == 0
+		// do not overwrite the google.protobuf.Empty of the previous hazard
+		if asInput && methods[i].In != req {
+			asInput = false
+		} else if !asInput && methods[i].Out != resp {
+			asInput = true
+		}
+		dep := synthDepFile(name, k)
+		tree.addSynth(dep)
+		deps = append(deps, svcDep{fdp: dep, dir: depPkgDir(name, k)})
+		imports = append(imports, dep.GetName())
+		item := "." + dep.GetPackage() + ".Item"
+		h := "imported_pkg:" + name
+		if asInput {
+			methods[i].In = item
+			h += ":in:" + names[i]
+		} else {
+			methods[i].Out = item
+			h += ":out:" + names[i]
+			if methods[i].Opts.Custom != "" {
+				h += "(custom)"
+			}
+		}
+		sr.Hazards = append(sr.Hazards, h)
+		header = fmt.Sprintf("import %q; // package %s; option go_package = %q; message Item { string value = 1; }\n",
+			dep.GetName(), dep.GetPackage(), dep.GetOptions().GetGoPackage())
+	}
 	sr.Methods = methods
 	for _, m := range methods {
 		sr.MethodOpts = append(sr.MethodOpts, m.Name+": "+m.Opts.String())
 	}
-	sr.Proto = protoText(pkg, methods)
-	return sr, tree.synthFile(pkg, methods)
+	sr.Proto = header + protoText(pkg, methods)
+	return sr, tree.synthFile(pkg, methods, imports...), deps
 }
 
 // protoText renders the service in .proto syntax (for the report only).
@@ -384,6 +462,7 @@ func cmdCompile(args []string) int {
 	pool := fs.String("pool", "compiling", `rows the services draw from: "compiling" (accepted rows whose single-method package compiles) or "accepted"`)
 	sruns := fs.Int("sruns", 2, "plugin runs per service (determinism)")
 	jobs := fs.Int("j", 0, "parallel workers (0: number of CPUs)")
+	keep := fs.String("keep", "", "copy the scratch module of the services (go.mod, s<k>/, s<k>dep/) into this directory before cleaning up")
 	if err := fs.Parse(args); err != nil {
 		return 2
 	}
@@ -498,8 +577,9 @@ func cmdCompile(args []string) int {
 		rng := rand.New(rand.NewSource(*seed))
 		svcs := make([]*ServiceResult, *nsvc)
 		fdps := make([]*descriptorpb.FileDescriptorProto, *nsvc)
+		sdeps := make([][]svcDep, *nsvc)
 		for k := 0; k < *nsvc; k++ {
-			svcs[k], fdps[k] = synthService(tree, k, rng, poolRows)
+			svcs[k], fdps[k], sdeps[k] = synthService(tree, k, rng, poolRows)
 		}
 		sunits := make([]*unit, *nsvc)
 		parallel(*nsvc, env.Jobs, func(k int) {
@@ -541,7 +621,7 @@ func cmdCompile(args []string) int {
 			if a.ParseError != "" {
 				sr.FirstError = "parse: " + a.ParseError
 			}
-			u := &unit{pkg: sr.Package, fdp: fdps[k], gen: content}
+			u := &unit{pkg: sr.Package, fdp: fdps[k], deps: sdeps[k], gen: content}
 			writeUnit(env, tree, modDir, u)
 			sunits[k] = u
 		})
@@ -561,6 +641,11 @@ func cmdCompile(args []string) int {
 		}
 		if rest != "" {
 			res.BuildOutput = strings.TrimSpace(res.BuildOutput + "\n" + rest)
+		}
+		if *keep != "" {
+			if err := copyTree(modDir, *keep); err != nil {
+				fmt.Fprintln(os.Stderr, "gr compile: -keep:", err)
+			}
 		}
 		for k, u := range sunits {
 			if u == nil {
@@ -646,6 +731,30 @@ func cmdCompile(args []string) int {
 		fmt.Fprintf(os.Stderr, "  unattributed build output: %s\n", firstLine(res.BuildOutput))
 	}
 	return 0
+}
+
+// copyTree copies the regular files below src to dst.
+func copyTree(src, dst string) error {
+	return filepath.Walk(src, func(p string, info os.FileInfo, err error) error {
+		if err != nil {
+			return err
+		}
+		rel, err := filepath.Rel(src, p)
+		if err != nil {
+			return err
+		}
+		if info.IsDir() {
+			return os.MkdirAll(filepath.Join(dst, rel), 0o755)
+		}
+		if !info.Mode().IsRegular() {
+			return nil
+		}
+		b, err := os.ReadFile(p)
+		if err != nil {
+			return err
+		}
+		return os.WriteFile(filepath.Join(dst, rel), b, 0o644)
+	})
 }
 
 var (
